@@ -1,4 +1,5 @@
 """C15 - folds, episode length, walk-forward (engine EP + Transmitter)."""
+import bisect
 import collections
 from datetime import datetime, timedelta
 
@@ -28,7 +29,7 @@ RULE = ("Random grids of 2-12 daily/irregular timesteps of which ~85% carry an e
         "expanding. Non-trivial = fold strictly inside the grid with >= 2 valid starts or a refusal.")
 ASSUMPTIONS = ["the episode_length argument of reset() ('number of states') is not judged; the configured length is",
                "sampling_span cases only check membership, not reachability"]
-REQUIRED_CATS = ["events-added-then-rebuilt", "steps_delay:1", "steps_delay:2", "one-off-length-then-configured"]
+REQUIRED_CATS = ["latent-only-timestep", "events-added-then-rebuilt", "steps_delay:1", "steps_delay:2", "one-off-length-then-configured"]
 REQUIRED = ["C15:decisions-exact", "C15:start-valid", "C15:visits-contiguous", "C15:every-start-reachable", "C15:refused-when-none-fits",
             "C15:whole-fold", "C15:walk-forward"]
 TECHNIQUE = "runtime monitoring: visited timesteps (observer clock per call) compared with the fold's event-bearing steps; seeded reachability sweep"
@@ -39,14 +40,21 @@ LEVEL_NOTE = ("Trusted: numpy's legacy global RNG is uniform. Mutation audit: sl
               "walk-forward step != test size are caught.")
 
 
-def visited_run(env, sink, fold, cap):
+def visited_run(env, sink, fold, cap, grid=None):
     del sink.log[:]
     env.reset(fold)
     seq = []
 
     def slot_of_last():
+        """The timestep the environment stands at = the grid point at or after the last delivered event."""
         ms = [x for x in sink.log if x[0] == "M"]
-        return ms[-1][2] if ms else None
+        if not ms:
+            return None
+        t = ms[-1][2]
+        if grid is not None:
+            k = bisect.bisect_left(grid, t)
+            return grid[k] if k < len(grid) else t
+        return t
 
     seq.append(slot_of_last())
     done = ep.done_at_reset(env, sink)
@@ -72,6 +80,22 @@ def case(ctx, i, tier):
         grid = [t0 + timedelta(days=k) for k in range(n)]
     bearing = [g for g in grid if rng.random() < 0.85] or [grid[0]]
     evs = [EventNBBO(g, ETF("A"), 10, 10) for g in bearing]
+    L = rng.choice([0, 0, 0, 5])
+    if L:
+        # with a latency, a timestep may bear nothing but events stamped within the latency after the PREVIOUS
+        # grid point (intraday ticks): it is event-bearing all the same and keeps its place in the order
+        evs = []
+        for g in bearing:
+            k = grid.index(g)
+            if k == 0:
+                evs.append(EventNBBO(g, ETF("A"), 10, 10))
+                continue
+            evs.append(EventNBBO(grid[k - 1] + timedelta(seconds=2), ETF("A"), 10, 10))
+            if rng.random() < 0.5:
+                evs.append(EventNBBO(g, ETF("A"), 10, 10))
+            else:
+                ctx.cat("latent-only-timestep")
+        ctx.cat("latency>0")
     i0 = rng.randint(0, n - 1)
     i1 = rng.randint(i0, n - 1)
     j0 = rng.randint(0, n - 1)
@@ -91,7 +115,7 @@ def case(ctx, i, tier):
         tr.add_events(evs)
         sink = ep.Sink()
         env = TradingEnv(action_space=BoxPortfolio([ETF("A")]), transmitter=tr, state=ep.Rec(sink),
-                         episode_length=nlen, sampling_span=span, steps_delay=delay)
+                         episode_length=nlen, sampling_span=span, steps_delay=delay, latency=L)
         sink.env = env
         starts = collections.Counter()
         valid = steps[:len(steps) - nlen] if len(steps) - nlen > 0 else []
@@ -109,7 +133,7 @@ def case(ctx, i, tier):
                 except Exception:
                     pass
             try:
-                seq, k, over = visited_run(env, sink, fold, cap=len(grid) + 2)
+                seq, k, over = visited_run(env, sink, fold, cap=len(grid) + 2, grid=grid)
             except Exception as ex:
                 if valid:
                     ctx.violation("C15:accepted-when-fits", nlen=nlen, steps=len(steps), error=repr(ex)[:200])
@@ -139,10 +163,10 @@ def case(ctx, i, tier):
     tr = Transmitter(grid, folds)
     tr.add_events(evs)
     sink = ep.Sink()
-    env = TradingEnv(action_space=BoxPortfolio([ETF("A")]), transmitter=tr, state=ep.Rec(sink))
+    env = TradingEnv(action_space=BoxPortfolio([ETF("A")]), transmitter=tr, state=ep.Rec(sink), latency=L)
     sink.env = env
     if steps:
-        seq, k, over = visited_run(env, sink, fold, cap=len(grid) + 2)
+        seq, k, over = visited_run(env, sink, fold, cap=len(grid) + 2, grid=grid)
         ctx.check("C15:whole-fold", not over and seq == steps, visited=seq, want=steps)
     else:
         try:
@@ -155,14 +179,15 @@ def case(ctx, i, tier):
     empty = [g for g in grid if g not in bearing]
     if steps and empty:
         extra = [g for g in empty if rng.random() < 0.7] or empty[:1]
-        tr.add_events([EventNBBO(g, ETF("A"), 11, 11) for g in extra])
+        tr.add_events([EventNBBO(g, ETF("A"), 11, 11) for g in extra] +
+                      [EventNBBO(grid[grid.index(g) - 1] + timedelta(seconds=2), ETF("A"), 11, 11) for g in extra if L and grid.index(g) > 0])
         sink = ep.Sink()
-        env = TradingEnv(action_space=BoxPortfolio([ETF("A")]), transmitter=tr, state=ep.Rec(sink))
+        env = TradingEnv(action_space=BoxPortfolio([ETF("A")]), transmitter=tr, state=ep.Rec(sink), latency=L)
         sink.env = env
         bearing2 = sorted(set(bearing) | set(extra))
         steps2 = [g for g in bearing2 if s <= g <= e]
         if steps2:
-            seq, k, over = visited_run(env, sink, fold, cap=len(grid) + 2)
+            seq, k, over = visited_run(env, sink, fold, cap=len(grid) + 2, grid=grid)
             ctx.check("C15:whole-fold", not over and seq == steps2, visited=seq, want=steps2, after="events added + environment rebuilt")
             ctx.cat("events-added-then-rebuilt")
     # walk forward
